@@ -1556,15 +1556,19 @@ fn boundary_cases(etype: &'static str) -> Vec<Case> {
         // a concatenation, a new list) — the loop goes on walking the vector it started
         // on; a push / swap through an alias of the walked list IS seen. Lists built by
         // Rust and by the script, rebinding in the first / a middle / the last iteration.
+        // (one kind of body per history: a history is cut at its first failing step)
         for at in ["", "@s"] {
-            texts.push(format!(
-                "f:0:{},{},{},{}{at} f:1:{},{},{},{},{},{}{at} fb:0:1:r:1@s fb:0:0:r:1@s fb:0:3:r:1@s fb:1:2:r:0@s fb:0:9:r:1@s v:0 v:1",
-                v(1), v(2), v(3), v(4), v(7), v(7), v(7), v(7), v(7), v(7)
-            ));
-            texts.push(format!(
-                "f:0:{},{},{}{at} f:1:{},{}{at} fb:0:0:c:1@s fb:0:1:c:0@s fb:0:0:n@s fb:0:2:n@s fb:0:1:f:1@s fb:1:0:f:0@s l:0 l:1",
-                v(1), v(2), v(3), v(8), v(9)
-            ));
+            let a = format!("f:0:{},{},{},{}{at} f:1:{},{},{},{},{},{}{at}", v(1), v(2), v(3), v(4), v(7), v(7), v(7), v(7), v(7), v(7));
+            let b = format!("f:0:{},{},{}{at} f:1:{},{}{at}", v(1), v(2), v(3), v(8), v(9));
+            // `l = o` in a middle / the first / the last iteration, the other way round, in no iteration
+            texts.push(format!("{a} fb:0:1:r:1@s fb:0:0:r:1@s fb:0:3:r:1@s fb:1:2:r:0@s fb:0:9:r:1@s v:0 v:1"));
+            // `l = l + o`, `l = l + l`
+            texts.push(format!("{b} fb:0:0:c:1@s fb:0:1:c:0@s fb:1:1:c:0@s l:0 l:1"));
+            // `l = []`
+            texts.push(format!("{b} fb:0:0:n@s fb:0:2:n@s fb:1:1:n@s l:0 l:1"));
+            // the iterable is a field path: `r.items = o`
+            texts.push(format!("{b} fb:0:1:f:1@s fb:1:0:f:0@s fb:0:2:f:0@s l:0 l:1"));
+            // push / swap through an alias of the walked list, through the walked list itself, through another list
             texts.push(format!(
                 "f:0:{},{},{}{at} c:1:0 f:2:{}{at} fb:0:0:p:1:{}@s fb:0:1:p:0:{}@s fb:0:1:p:2:{}@s fb:0:0:s:1:0:2@s fb:1:1:s:0:0:9@s fb:2:0:r:2@s v:0 v:2",
                 v(1), v(2), v(3), v(5), v(4), v(5), v(6)
